@@ -96,7 +96,7 @@ func main() {
 		}) != nil {
 			r.Inconclusive("could not read the fan-out constants")
 		}
-		n := r.Scale(120, 6000)
+		n := r.Scale(120, 1300)
 		r.Cases("hist", n, runtime.GOMAXPROCS(0), func(c *vkit.Case) {
 			switch c.Index % 3 {
 			case 0:
